@@ -23,6 +23,7 @@ MPSF == INSTANCE MPSFile
 RES == INSTANCE Residue
 LPW == INSTANCE LPWrite
 MPSW == INSTANCE MPSWrite
+CS == INSTANCE ColStore
 
 Tr == ndJsonDeserialize(IOEnv.TRACE)
 VerdictFile == IOEnv.VERDICT
@@ -66,7 +67,7 @@ Init == /\ l = 1
         /\ viol = {}
         /\ cnt = [events |-> 0, dumps |-> 0, edits |-> 0, rejected |-> 0, optcerts |-> 0, farkas |-> 0, unb |-> 0,
                   solves |-> 0, solobs |-> 0, witnesses |-> 0, agree |-> 0, binv |-> 0, basisrt |-> 0, scenarios |-> 0,
-                  quiet |-> 0, conv |-> 0, basverdicts |-> 0, lptext |-> 0]
+                  quiet |-> 0, conv |-> 0, basverdicts |-> 0, lptext |-> 0, stores |-> 0]
 
 \* ------------------------------------------------------------------ helpers on logged data
 Pairs1(ent) == {<<ent[k].j + 1, ent[k].v>> : k \in 1..Len(ent)}        \* logged sparse vector, 0-based -> 1-based
@@ -120,6 +121,44 @@ DumpDiff(L, ev) ==
              /\ \A j \in 1..L.n : ev.cnames2[j] # "" /\ (L.cname[j] # UNKNOWN => ev.cnames2[j] = L.cname[j])
              /\ NoDup(ev.cnames2) /\ ev.cidx = [j \in 1..L.n |-> j - 1]
           THEN {} ELSE {"column names / name->index: " \o ToString(<<L.cname, ev.cnames, ev.cnames2, ev.cidx>>)})
+
+\* ------------------------------------------------------------------ the raw column store of the dump, seen through ColStore.tla
+\* the driver logs the used prefix of matind/matval and the free tail run-length encoded (one run of -1 when it is free)
+StoreOf(x) ==
+  LET used == x.cap - x.free
+      tailok == IF x.free = 0 THEN Len(x.tail) = 0 ELSE Len(x.tail) = 1 /\ x.tail[1].v = -1 /\ x.tail[1].c = x.free
+  IN [cap |-> x.cap, free |-> x.free, nrows |-> x.nrows, beg |-> x.beg, cnt |-> x.cnt, oob |-> FALSE,
+      ind |-> [k \in 0..(x.cap - 1) |-> IF k < used THEN x.ind[k + 1] ELSE IF tailok THEN -1 ELSE 0],
+      val |-> [k \in 0..(x.cap - 1) |-> IF k < used THEN x.val[k + 1] ELSE "0"]]
+StoreShapeOK(x) == /\ x.cap >= 0 /\ x.free >= 0 /\ x.free <= x.cap /\ Len(x.ind) = x.cap - x.free /\ Len(x.val) = Len(x.ind)
+                   /\ Len(x.beg) = x.ncols /\ Len(x.cnt) = x.ncols /\ Len(x.structmap) = x.nstruct /\ Len(x.rowmap) = x.lprows
+                   /\ x.ncols = x.nstruct + x.lprows /\ x.nrows = x.lprows
+StoreDiff(L, ev) ==
+  IF "store" \notin DOMAIN ev THEN {}
+  ELSE LET x == ev.store IN
+    IF ~StoreShapeOK(x) THEN {"column store: dimensions inconsistent"}
+    ELSE LET cs == StoreOf(x)
+             wf == CS!WFReasons(cs)
+         IN IF wf # {} THEN {"column store: " \o r : r \in wf}
+            ELSE IF x.nstruct # L.n \/ x.lprows # L.m THEN {}        \* reported by the counts already
+            ELSE (IF /\ \A j \in 1..L.n : x.structmap[j] \in 0..(x.ncols - 1)
+                     /\ \A i \in 1..L.m : x.rowmap[i] \in 0..(x.ncols - 1)
+                     /\ Cardinality({x.structmap[j] : j \in 1..L.n} \cup {x.rowmap[i] : i \in 1..L.m}) = x.ncols
+                  THEN (IF \A j \in 1..L.n : {<<e[1] + 1, e[2]>> : e \in CS!AbsCol(cs, x.structmap[j] + 1)} = ColPairs(L, j)
+                        THEN {} ELSE {"column store: a structural column does not denote the model's column"})
+                       \cup (IF \A i \in 1..L.m : LET c == CS!AbsCol(cs, x.rowmap[i] + 1) IN
+                                   Cardinality(c) = 1 /\ \A e \in c : e[1] = i - 1 /\ e[2] \in {"1", "-1"}
+                             THEN {} ELSE {"column store: a logical column is not a unit entry in its own row"})
+                       \* the standard form behind the row senses: L/E rows carry a +1 logical, G/R rows a -1 logical, bounded
+                       \* [0,inf) for L/G, [0,0] for E and [0,range] for R.  The query API shows only the sense; every solver works on this.
+                       \cup (IF "lglo" \in DOMAIN x /\ Len(x.lglo) = L.m /\ Len(x.lgup) = L.m
+                             THEN (IF \A i \in 1..L.m : \A e \in CS!AbsCol(cs, x.rowmap[i] + 1) :
+                                        e[2] = (IF L.sense[i] \in {"G", "R"} THEN "-1" ELSE "1")
+                                   THEN {} ELSE {"standard form: the sign of a logical column does not match the sense of its row"})
+                                  \cup (IF \A i \in 1..L.m : x.lglo[i] = "0" /\ x.lgup[i] = (CASE L.sense[i] = "E" -> "0" [] L.sense[i] = "R" -> L.range[i] [] OTHER -> "inf")
+                                        THEN {} ELSE {"standard form: the bounds of a logical column do not match sense/range of its row"})
+                             ELSE {})
+                  ELSE {"column store: structmap/rowmap is not a bijection onto the columns"})
 
 ParDiff(par, ev) == (IF ev.par.ppricing = par.ppricing /\ ev.par.dpricing = par.dpricing /\ ev.par.display = par.display
                         /\ ev.par.maxiter = par.maxiter /\ ev.par.scaling = par.scaling THEN {} ELSE {"parameters"})
@@ -275,10 +314,10 @@ Step(ev) ==
                  LET ok == DumpOK(ev)
                      P == IF ok THEN LPFromDump(ev) ELSE EmptyLP(FALSE)
                      d == IF ~ok THEN {"a query call failed on a problem returned by the reader"}
-                          ELSE DumpDiff(P, ev) \ {"nzcount"}
+                          ELSE (DumpDiff(P, ev) \ {"nzcount"}) \cup StoreDiff(P, ev)
                  IN R([s EXCEPT !.sync = ok /\ DataFinite(ev), !.lp = IF ok THEN P ELSE @, !.pend = {}, !.par = ev.par],
                       IF d = {} THEN {} ELSE {V(ev, {"C11"}, "the problem delivered by the reader is internally inconsistent: " \o ToString(d))})
-               ELSE LET d == DumpDiff(L, ev) \cup ParDiff(s.par, ev)
+               ELSE LET d == DumpDiff(L, ev) \cup ParDiff(s.par, ev) \cup StoreDiff(L, ev)
                         \* no edit on this handle since the last dump and still different: another handle's call changed it (C16)
                         tags == IF s.pend # {} THEN s.pend ELSE IF s.dirty THEN {"C06"} ELSE {"C06", "C16"}
                     IN IF d = {} THEN R([s EXCEPT !.pend = {}, !.dirty = FALSE, !.lp.rname = IF L.m = 0 THEN <<>> ELSE ev.rnames2, !.lp.cname = IF L.n = 0 THEN <<>> ELSE ev.cnames2], {})
@@ -781,6 +820,7 @@ Next ==
              /\ viol' = viol \cup Quiet(ev) /\ UNCHANGED <<st, slot, ans, glob>>
        /\ cnt' = [cnt EXCEPT !.events = @ + 1,
                              !.dumps = @ + (IF ev.call = "dump" THEN 1 ELSE 0),
+                             !.stores = @ + (IF ev.call = "dump" /\ "store" \in DOMAIN ev THEN 1 ELSE 0),
                              !.scenarios = @ + (IF ev.call = "scenario" THEN 1 ELSE 0),
                              !.solves = @ + (IF ev.call \in {"exact", "opt_primal", "opt_dual"} THEN 1 ELSE 0),
                              !.optcerts = @ + (IF ev.call = "exact" /\ ev.rval = 0 /\ ev.status = 1 /\ ev.wantxy = 1 THEN 1 ELSE 0)
